@@ -1,1 +1,5 @@
 import Props.C14
+import Props.C01
+import Props.C07
+import Props.C10
+import Props.C20
